@@ -1301,6 +1301,7 @@ package connect
 //@   ensures err != nil && callres("grpcStatusFromError", 1, 1) == nil && callres("Codec.Marshal", 1, 1) == nil ==> mapval(trailer, "Grpc-Status")[0] == dec(callres("grpcStatusFromError", 1, 0).Code) && isEnc(mapval(trailer, "Grpc-Message")[0], callres("grpcStatusFromError", 1, 0).Message)   // label: status-and-percent-encoded-message
 //@   ensures err != nil && callres("grpcStatusFromError", 1, 1) == nil && callres("Codec.Marshal", 1, 1) == nil ==> mapdom(trailer, "Grpc-Status-Details-Bin") && mapval(trailer, "Grpc-Status-Details-Bin") == [b64raw(menc(protobuf, mval(callres("grpcStatusFromError", 1, 0))))]   // label: binary-status-always-sent
 //@   ensures err != nil && !(callres("grpcStatusFromError", 1, 1) == nil && callres("Codec.Marshal", 1, 1) == nil) ==> mapval(trailer, "Grpc-Status")[0] == dec(13)   // label: unencodable-error-is-internal
+//@   ensures err != nil && !(callres("grpcStatusFromError", 1, 1) == nil && callres("Codec.Marshal", 1, 1) == nil) ==> !hdom(trailer, "Grpc-Status-Details-Bin")   // label: and-goes-out-without-any-binary-status-whatever-the-metadata-held   // tags: C05, C02
 //@   ensures err != nil && coded(err) ==> (forall k seq :: {mapval(trailer, k)} mapdom(asErr(err).meta, k) && !reservedGRPC(k) && !framing(k) ==> mapdom(trailer, k) && mapval(trailer, k) == old(rawvals(trailer, k)) ++ mapval(asErr(err).meta, k))   // label: error-metadata-appended-under-its-keys-whether-or-not-the-error-itself-can-be-serialized   // tags: C11, C02, own
 //@   ensures forall k seq :: {mapval(trailer, k)} !reservedGRPC(k) && !(err != nil && coded(err) && mapdom(asErr(err).meta, k) && !framing(k)) ==> mapdom(trailer, k) == old(mapdom(trailer, k)) && mapval(trailer, k) == old(mapval(trailer, k))   // label: other-trailers-untouched-the-framing-headers-among-them-whatever-the-error's-metadata-holds   // tags: C11, C05, own
 
